@@ -112,6 +112,12 @@ def gen_plan(seed, cfg):
     nops = rng.randint(3, 12) if tier == "quick" or rng.random() < 0.5 else rng.randint(8, 30)
     cold = seed % 16 == 15
     llvm_kernels = [i for i, k in enumerate(KERNELS) if k[4] == "llvm"]
+    # histories dealt out to two simulated threads (decided first: they use a small palette of kernels
+    # and both dimension sets, so that the two threads meet inside the same cached method with
+    # arguments of different dimensions)
+    # (C02's share of engine S is about outputs of interleaved calls and chains; C13's about lifetimes)
+    threaded = rng.random() < (0.35 if tier == "thorough" else 0.3 if (cfg or {}).get("prop") == "C02" else 0.1)
+    palette = rng.sample(range(len(KERNELS)), rng.choice([1, 2, 3])) if threaded and rng.random() < 0.7 else None
     # generator-side model: name -> (kind, dims, fmt, from_kernel)
     names = {}
     ops = []
@@ -139,10 +145,12 @@ def gen_plan(seed, cfg):
         dst = rng.choice(NAMES)
         if kind == "eval":
             ki = rng.randrange(len(KERNELS))
+            if palette is not None:
+                ki = palette[ki % len(palette)]
             if cold:
                 ki = llvm_kernels[ki % len(llvm_kernels)]
             a, of, params, od, be = KERNELS[ki]
-            v = 1 if rng.random() < 0.3 else 0
+            v = 1 if rng.random() < (0.5 if palette is not None else 0.3) else 0
             ops.append({"op": "eval", "dst": dst, "kernel": ki, "variant": v,
                         "srcs": {p: pick_source(_vd(d, v), f) for p, d, f in params}})
             names[dst] = ("tensor", _vd(od, v), of, True)
@@ -212,7 +220,7 @@ def gen_plan(seed, cfg):
             "heap": hk, "ops": ops, "gc_faults": sorted(faults)}
     if len(ops) <= 4 and tier == "thorough" and rng.random() < 0.1:
         plan["gc_sweep"] = True
-    threaded = not plan.get("gc_sweep") and rng.random() < (0.35 if tier == "thorough" else 0.08)
+    threaded = threaded and not plan.get("gc_sweep")
     sp = {"strategy": "coin", "p_hot": rng.choice([0.02, 0.05, 0.1, 0.3]),
           "p_cold": rng.choice([0.0, 0.001]), "p_gc": rng.choice([0.0, 0.005, 0.02]),
           "lock_points": False}
